@@ -98,13 +98,14 @@ shape("registry_default_include", "src/codemodder/registry.py", ["C05"],
       doc="registry.default_include_paths = {*ext, **/*ext for each default extension}")
 
 shape("line_filter", "src/codemodder/codemods/base_visitor.py", ["C13"],
-      "line_filter_shape", "as_written", "AsWritten",
+      "line_filter_rule", "lf_rule", "ExcludeThenInclude",
       ["UtilsMixin.filter_by_path_includes_or_excludes", "UtilsMixin.node_is_selected", "UtilsMixin.lineno_for_node",
        "match_line"],
-      doc="filter_by_path_includes_or_excludes (exclude > include > True) / node_is_selected / lineno_for_node / match_line")
+      doc="filter_by_path_includes_or_excludes (as written: a non-empty exclusion list shadows the inclusion list; repaired: excluded never, "
+          "included only) / node_is_selected / lineno_for_node / match_line")
 
 shape("line_filter_copy", "src/core_codemods/remove_unused_imports.py", ["C13"],
-      "line_filter_copy_shape", "as_written", "AsWritten",
+      "line_filter_copy_rule", "lf_rule", "ExcludeThenInclude",
       ["RemoveUnusedImports.filter_by_path_includes_or_excludes", "match_line"],
       doc="the copy of the line filter in remove_unused_imports.py: must be the same decision rule")
 
